@@ -67,6 +67,20 @@ Theorem string_does_not_panic a :
 Proof. exact (string_never_panics a). Qed.
 Print Assumptions string_does_not_panic.
 
+(* MinimalString: a pattern member of the same value without trailing zeros in the fraction *)
+Theorem minimal_string_is_minimal a :
+  amount_ok a = true ->
+  matches_amount_pattern (minimal_string_fixed a) = true /\
+  (toQ (amount_of (minimal_string_fixed a)) == toQ a)%Q /\
+  (snd (value_of (minimal_string_fixed a)) = 0%nat \/ Byte.eqb (last (minimal_string_fixed a) x00) b_zero = false).
+Proof. exact (minimal_string_fixed_spec a). Qed.
+Print Assumptions minimal_string_is_minimal.
+
+Theorem minimal_string_shipped_is_fixed_except_min_int64 a :
+  amount_ok a = true -> val a <> min64 -> minimal_string a = minimal_string_fixed a.
+Proof. exact (minimal_string_shipped_eq_fixed a). Qed.
+Print Assumptions minimal_string_shipped_is_fixed_except_min_int64.
+
 (* ---- round trip ---- *)
 Theorem parse_print_roundtrip a : amount_ok a = true -> parse_amount_fixed (print_amount_fixed a) = Some a.
 Proof. exact (parse_print_fixed a). Qed.
